@@ -221,6 +221,20 @@ func genScenario(g *Gen, pf scnProfile) Case {
 	for _, h := range []string{"/", "/dev", "/proc", "/sys", "/run"} {
 		t.ents[h] = []interface{}{hx(h), "d"}
 	}
+	bare := g.Chance(4, 100)
+	if bare {
+		// nothing set up yet: init has work to do, everything else must refuse
+		t.dir(VB) // the scratch directory standing for the base path always exists
+		steps0 := []interface{}{obj("cmd", "init", "args", hxs([]string{})), obj("cmd", "init", "args", hxs([]string{})),
+			obj("cmd", "add", "args", hxs([]string{"b0", "", ""})), obj("cmd", "probe", "args", hxs([]string{}))}
+		if g.Chance(pf.pPretend, 100) {
+			steps0[0].(map[string]interface{})["pretend"] = true
+		}
+		if g.Chance(pf.pFault, 100) {
+			steps0[0].(map[string]interface{})["fault"] = float64(1 + g.Intn(5))
+		}
+		return Case{"op": "scenario", "cfg": defaultCfg(), "tree": t.list(), "host": hostTable(g, false), "steps": steps0}
+	}
 	t.dir(VB)
 	t.dir(VB + "/layers")
 	t.dir(VB + "/export")
@@ -323,6 +337,40 @@ func genScenario(g *Gen, pf scnProfile) Case {
 				st["args"] = hxs([]string{pickName()})
 				st["all"] = g.Chance(5, 100)
 			}
+		case "sysmount":
+			// a mount the administrator made by hand: right or wrong source on an import
+			// mountpoint, or something foreign below a build root
+			ln := "b0"
+			if len(forest) > 0 {
+				ln = forest[g.Intn(len(forest))].name
+			}
+			build := VB + "/layers/" + ln + "/build"
+			tgt := build + g.Pick("/proc", "/dev", "/mnt/host", "/mnt/sub", "/var/cache/binpkgs", "/mnt/gen", "/mnt/foreign", "")
+			switch g.Intn(4) {
+			case 0:
+				st["args"] = hxs([]string{VB + "/hostsrc", tgt, "bind"})
+				st["flags"] = float64(4096)
+			case 1:
+				st["args"] = hxs([]string{VB + "/hostsrc/sub", tgt, "bind"})
+				st["flags"] = float64(4096)
+			case 2:
+				st["args"] = hxs([]string{"/proc", tgt, "proc"})
+				st["flags"] = float64(0)
+			case 3:
+				st["args"] = hxs([]string{"tmpfs", tgt, "tmpfs"})
+				st["flags"] = float64(0)
+			}
+			steps = append(steps, st)
+			continue
+		case "sysumount":
+			ln := "b0"
+			if len(forest) > 0 {
+				ln = forest[g.Intn(len(forest))].name
+			}
+			build := VB + "/layers/" + ln + "/build"
+			st["args"] = hxs([]string{build + g.Pick("/proc", "/dev", "/dev/pts", "/mnt/host", "/mnt/sub", "/var/cache/binpkgs", "/mnt/gen", "")})
+			steps = append(steps, st)
+			continue
 		default:
 			st["args"] = hxs([]string{})
 		}
@@ -351,7 +399,7 @@ func genScenario(g *Gen, pf scnProfile) Case {
 }
 
 var structuralCmds = []string{"add", "add", "add", "remove", "remove", "rename", "rename", "rebase", "rebase", "mkdirs", "probe"}
-var mountCmds = []string{"mount", "mount", "mount", "umount", "umount", "chroot", "shake", "mkdirs", "add", "probe"}
+var mountCmds = []string{"mount", "mount", "mount", "umount", "umount", "chroot", "shake", "mkdirs", "add", "probe", "sysmount", "sysumount", "sysumount"}
 var allCmds = append(append([]string{"init"}, structuralCmds...), mountCmds...)
 
 var profiles = map[string]scnProfile{
@@ -363,7 +411,60 @@ var profiles = map[string]scnProfile{
 	"scn-pretend": {name: "scn-pretend", cmds: allCmds, pPretend: 60, pUsers: 5, pIncomplete: 10, pWeirdImport: 3, minSteps: 3, maxSteps: 8},
 }
 
+// exhaustive over the fault / crash position: take a scenario, pick a step, learn how many
+// fault points the step passes when undisturbed, and emit one variant per position
+func genExhaustive(g *Gen, tier string, emit func(Case), mode string) {
+	n := 12
+	if tier == "thorough" {
+		n = 300
+	}
+	pf := profiles["scn-struct"]
+	if mode == "fault" {
+		pf = profiles["scn-mixed"]
+		pf.pFault, pf.pCrash, pf.pPretend = 0, 0, 0
+	}
+	for i := 0; i < n; i++ {
+		base := genScenario(g, pf)
+		steps := base["steps"].([]interface{})
+		obs, ok := runScenario(base).(map[string]interface{})
+		if !ok || obs["steps"] == nil {
+			continue
+		}
+		outs := obs["steps"].([]interface{})
+		// the step with the most fault points
+		best, bestN := -1, 0
+		for k, o := range outs {
+			if nn, _ := o.(map[string]interface{})["nops"].(float64); int(nn) > bestN {
+				best, bestN = k, int(nn)
+			}
+		}
+		if best < 0 {
+			continue
+		}
+		for k := 1; k <= bestN+1; k++ {
+			c := Case{"op": "scenario", "cfg": base["cfg"], "tree": base["tree"], "host": base["host"]}
+			ns := []interface{}{}
+			for j := 0; j <= best; j++ {
+				st := map[string]interface{}{}
+				for kk, vv := range steps[j].(map[string]interface{}) {
+					st[kk] = vv
+				}
+				delete(st, "childOrder")
+				if j == best {
+					st[mode] = float64(k)
+				}
+				ns = append(ns, st)
+			}
+			ns = append(ns, obj("cmd", "probe", "args", hxs([]string{})))
+			c["steps"] = ns
+			emit(c)
+		}
+	}
+}
+
 func init() {
+	register("scn-faultx", func(g *Gen, tier string, emit func(Case)) { genExhaustive(g, tier, emit, "fault") })
+	register("scn-crashx", func(g *Gen, tier string, emit func(Case)) { genExhaustive(g, tier, emit, "crash") })
 	for name, pf := range profiles {
 		pf := pf
 		register(name, func(g *Gen, tier string, emit func(Case)) {
